@@ -1,4 +1,5 @@
 """C18 — pooled scratch buffers are always returned: no leak, exhaustion or stale data."""
+from checks import big_scale
 import os
 import sys
 
@@ -130,4 +131,7 @@ def main(ck):
                 ck.oblige("oracle %s on %d cases (driver unavailable)" % (name, len(cases)), n_bad == 0, "%d oracle failures" % n_bad)
     api_cov.run(ck, "c18")   # otherwise unexercised public API, model-free oracles of this property
     api_cov.run(ck, "c03")   # otherwise unexercised public API, model-free oracles of this property
+    big_scale.run(ck, "longstring.ring")   # large-scale regime (>65536 bonds/ops/slots, release semantics): model-free oracles of the property statements
+    big_scale.run(ck, "densegraph")   # large-scale regime (>65536 bonds/ops/slots, release semantics): model-free oracles of the property statements
+    big_scale.run(ck, "manyvars.vars")   # large-scale regime (>65536 bonds/ops/slots, release semantics): model-free oracles of the property statements
     return ck.finish(RULE)
